@@ -122,8 +122,7 @@ Proof.
            | IH : occ_o ?x = false -> _, Hx : occ_o ?x = false |- _ => rewrite (IH Hx); clear IH
            end;
     repeat match goal with |- context [if ?b then ?x else ?x] => destruct b end; auto.
-  - rewrite sw_otbl_id by auto. destruct (vis KField S_table); reflexivity.
-  - rewrite sw_otbl_id by auto. destruct (vis KStar S_table); reflexivity.
+  all: rewrite sw_otbl_id by auto; try match goal with |- context [if ?b then _ else _] => destruct b end; reflexivity.
 Qed.
 Definition occ_rep_id := proj1 occ_rep_id_all.
 
